@@ -883,8 +883,18 @@ fn cmd_check(property: &str, tier: Tier) -> i32 {
     // little-endian 32-bit target (the properties are stated for the library, not for x86_64)
     let cplan = cross_plan(property);
     if !cplan.is_empty() && std::env::var_os("VERIF_NO_MIRI").is_none() {
-        for target in CROSS_TARGETS {
-            let m = run_miri_plan(&cplan, Some(target), tier, seed, true);
+        // both targets at the same time (each is a handful of interpreter processes)
+        let outcomes: Vec<MiriOutcome> = std::thread::scope(|sc| {
+            let hs: Vec<_> = CROSS_TARGETS
+                .iter()
+                .map(|t| {
+                    let cplan = &cplan;
+                    sc.spawn(move || run_miri_plan(cplan, Some(t), tier, seed, true))
+                })
+                .collect();
+            hs.into_iter().map(|h| h.join().unwrap()).collect()
+        });
+        for (target, m) in CROSS_TARGETS.into_iter().zip(outcomes) {
             if !m.errors.is_empty() {
                 // an interpreter or sysroot that is not available is not a verdict about flussab
                 // and must not break the native check: say so, count it, carry on
